@@ -24,6 +24,7 @@ C02 — M: the mechanisms that differ between configurations, on the lowered cor
     cell, a top-level `set!` overwrites a cell, every piece is compiled by the unit-local inliner.
 -/
 import SteelVerif.C01.Frag
+import SteelVerif.C02.GenSwitches
 namespace SteelVerif.C02
 open SteelVerif.C01
 
@@ -298,5 +299,48 @@ def Obs.value (o : Obs) (fuel : Nat) : Option Val := (evalIR o.1 fuel o.2 []).ma
 /-- Two observations are indistinguishable: they yield the same values (with whatever call depth each
 needs); in particular one is an error / diverges iff the other does. -/
 def Obs.Equiv (a b : Obs) : Prop := ∀ v, (∃ n, a.value n = some v) ↔ (∃ n, b.value n = some v)
+
+/-! ## (d) Configurations -/
+
+/-- The switches whose settings the differential run varies, in the order of the bits of a configuration.
+Bit `true` = the variable is set to its NON-default value (`STEEL_JIT=false`, `STEEL_INLINE=1`,
+`STEEL_INLINE_RECURSIVE=1`, `STEEL_CLOSURE_LIFTING=false`, `STEEL_MODULE_INLINE=1`), `false` = unset. -/
+def modelledSwitches : List String :=
+  ["STEEL_JIT", "STEEL_INLINE", "STEEL_INLINE_RECURSIVE", "STEEL_CLOSURE_LIFTING", "STEEL_MODULE_INLINE"]
+
+/-- Environment variables steel-core reads that do not select an execution strategy: search paths, a
+compile-time constant, a debugging dump, the collector hook of C04. -/
+def ignoredEnv : List String :=
+  ["STEEL_HOME", "STEEL_SEARCH_PATHS", "STEEL_BOOTSTRAP", "STEEL_DEBUG_AST", "STEEL_VERIF_GC_EVERY"]
+
+/-- The value that switches a variable away from its default, from the test the code applies. -/
+def nonDefaultValue (s : Switch) : Option String :=
+  if s.onWhen = "ne:false" then some "false"
+  else if s.onWhen = "eq:1" then some "1"
+  else if s.onWhen = "set" then some "1"
+  else none
+
+abbrev Config := List Bool
+
+def bitsOf (n k : Nat) : Config := (List.range k).map fun i => (n >>> i) % 2 == 1
+
+/-- All 32 configurations (thorough tier). -/
+def allConfigs : List Config := (List.range 32).map (bitsOf · 5)
+
+/-- Quick tier: the orthogonal array OA(8,5,2,2) with columns a, b, c, a⊕b, a⊕c (every pair of switches takes
+every pair of settings), plus "interpreter only" and "everything non-default". -/
+def quickConfigs : List Config :=
+  ((List.range 8).map fun n =>
+    let a := n % 2 == 1
+    let b := (n / 2) % 2 == 1
+    let c := (n / 4) % 2 == 1
+    [a, b, c, a != b, a != c]) ++
+  [[true, false, false, false, false], [true, true, true, true, true]]
+
+/-- Every pair of positions takes every pair of values somewhere in `cs`. -/
+def pairwiseCovering (k : Nat) (cs : List Config) : Bool :=
+  (List.range k).all fun i => (List.range k).all fun j =>
+    i == j || [false, true].all fun a => [false, true].all fun b =>
+      cs.any fun c => c[i]? == some a && c[j]? == some b
 
 end SteelVerif.C02
